@@ -46,3 +46,8 @@ m('c07-retained-not-excluded', 'mofun/mofun.py', 'to_delete_linker = set(match_i
 m('c07-overwrite-set', 'mofun/mofun.py', '                to_delete |= set(to_delete_linker)', '                to_delete = set(to_delete_linker)', 'C07')
 m('c07-silent', 'mofun/mofun.py', '                raise AtomsShouldNotBeDeletedTwice()', '                pass', 'C07')
 m('c07-keys-instead-of-values', 'mofun/mofun.py', 'set(match_indices[m_i]) - set(structure_index_map.values())', 'set(match_indices[m_i]) - set(structure_index_map.keys())', 'C07')
+# ---- C16
+m('c16-swap-xy', 'mofun/atoms.py', "float(a['x3']), float(a['y3']), float(a['z3'])) for a in atom_dicts]", "float(a['y3']), float(a['x3']), float(a['z3'])) for a in atom_dicts]", 'C16')
+m('c16-first-ref-twice', 'mofun/atoms.py', 'bonds = [(id_to_idx[b1], id_to_idx[b2]) for (b1,b2) in bonds_by_ids]', 'bonds = [(id_to_idx[b1], id_to_idx[b1]) for (b1,b2) in bonds_by_ids]', 'C16')
+m('c16-id-number-parse', 'mofun/atoms.py', 'id_to_idx = {id:i for i, id in enumerate(ids)}', 'id_to_idx = {id:int(id[1:]) - 1 for i, id in enumerate(ids)}', 'C16', note='assumes ids are a1..aN in order')
+m('c16-harmless-rename', 'mofun/atoms.py', 'id_to_idx = {id:i for i, id in enumerate(ids)}', 'id_to_idx = {atom_id:k for k, atom_id in enumerate(ids)}', 'C16', 'pass')
